@@ -321,6 +321,60 @@ ex:V2 a sh:NodeShape ; sh:targetSubjectsOf ex:linked ; sh:property [ sh:path ex:
                 _, only_o, only_t = graph_diff(to_isomorphic(og), to_isomorphic(target))
                 diffs.append(({"sg": rdflib.Graph(), "data": rdflib.Graph()}, "the mix-in of an ontology of RDFS/OWL axioms only (%s) into an empty data graph is not that ontology: axioms lost %s; triples invented %s"
                               % (fname, sorted(" ".join(x.n3() for x in t_) for t_ in only_o)[:6], sorted(" ".join(x.n3() for x in t_) for t_ in only_t)[:6]), ("ok", True, [], "", None), ("ok", True, [], "", None), sorted(chosen)))
+    # (e) the same container object validated again after its triples were moved between its graphs (still the same T): nothing that an
+    # earlier run learnt about where a node is described may be used; the report (text included, which describes blank nodes in place)
+    # equals the report over a fresh container with the same quads, and the report over the plain Graph
+    MOVE_TTL = """@prefix sh: <http://www.w3.org/ns/shacl#> . @prefix ex: <http://ex.org/> .
+ex:MV a sh:NodeShape ; sh:targetSubjectsOf ex:p ; sh:property [ sh:path ex:p ; sh:nodeKind sh:IRI ; sh:message "value {$value}" ] .
+ex:MF a sh:NodeShape ; sh:targetObjectsOf ex:p ; sh:property [ sh:path ex:q ; sh:maxCount 0 ] .
+"""
+
+    def text_key(o):
+        return sorted("".join(sorted(c18_label_free(l))) for l in (o[3] or "").splitlines()) if o[0] == "ok" else o[:2]
+
+    import re as _re
+    _lab = _re.compile(r"\b[Nn][0-9a-f]{32}(?:b[0-9]+)?\b")
+    c18_label_free = lambda l: _lab.sub("B", l)
+    sgm = rdflib.Graph().parse(data=MOVE_TTL, format="turtle")
+    for j in range(150 if big else 20):
+        iris_ = [EX["m%d" % i] for i in range(rng.randint(2, 4))]
+        triples = []
+        for i, x in enumerate(iris_):
+            b_ = BNode("mv%d_%d" % (j, i))
+            triples += [(x, EX.p, b_), (b_, EX.q, rdflib.Literal(i)), (b_, EX.r, rdflib.Literal("d%d" % i))]
+            if rng.random() < 0.4:
+                triples.append((x, EX.p, rng.choice(iris_)))
+        kind = rng.choice(["Dataset", "ConjunctiveGraph"])
+        dsx = rdflib.Dataset() if kind == "Dataset" else rdflib.ConjunctiveGraph()
+        # every blank node's description sits in one named graph of its own choice
+        home = {}
+        for t in triples:
+            key = t[0] if isinstance(t[0], BNode) else t[2] if isinstance(t[2], BNode) else None
+            ctx = home.setdefault(key, URIRef("urn:h%d" % rng.randrange(3)))
+            dsx.get_context(ctx).add(t)
+        o2 = {"inplace": True} if rng.random() < 0.3 else {}
+        first = S.run_validate(dsx, sgm, **o2)
+        # move: the triples of one named graph go to a graph with another name
+        names = sorted({c_ for c_, _ in quads_of(dsx) if str(c_).startswith("urn:h")}, key=str)
+        src = rng.choice(names)
+        dst = URIRef("urn:moved%d" % j)
+        for t in list(dsx.get_context(src)):
+            dsx.get_context(dst).add(t)
+            dsx.get_context(src).remove(t)
+        again = S.run_validate(dsx, sgm, **o2)
+        fresh_c = rdflib.Dataset() if kind == "Dataset" else rdflib.ConjunctiveGraph()
+        for c_, t in quads_of(dsx):
+            (fresh_c.get_context(c_) if c_ is not None and str(c_).startswith("urn:") else fresh_c.default_context).add(t)
+        fresh = S.run_validate(fresh_c, sgm, **o2)
+        plain = S.run_validate(distribute(rng, triples, "Graph"), sgm)
+        stats["moved_container_cases"] = stats.get("moved_container_cases", 0) + 1
+        cm = {"sg": sgm, "data": distribute(rng, triples, "Graph")}
+        if not same(again, fresh) or text_key(again) != text_key(fresh):
+            diffs.append((cm, "a %s validated a second time after the triples of <%s> were moved to <%s> reports otherwise than a fresh container holding the same quads (options %r)" % (kind, src, dst, o2),
+                          fresh, again, sorted("%s | %s" % (cx, " ".join(x.n3() for x in t)) for cx, t in quads_of(dsx))))
+        elif not same(again, plain) or not same(first, plain):
+            diffs.append((cm, "a %s holding the same triples gives another report than the plain Graph (options %r)" % (kind, o2), plain, again if not same(again, plain) else first,
+                          sorted("%s | %s" % (cx, " ".join(x.n3() for x in t)) for cx, t in quads_of(dsx))))
     for c, what, o1, o2, quads in diffs[:8]:
         d = S.describe_case(c["sg"], c["data"], {}, o1)
         d["what"] = what
